@@ -83,7 +83,21 @@ func lockOp(i ssa.Instruction) (id string, op int) {
 func mutexID(v ssa.Value) string {
 	switch x := v.(type) {
 	case *ssa.FieldAddr:
-		return NamedTypeRel(x.X.Type()) + "." + fieldName(x.X.Type(), x.Field)
+		name := fieldName(x.X.Type(), x.Field)
+		// an embedded sync.Mutex turned into an embedded sync.RWMutex is the same lock
+		// under the name its type gives it
+		if st := structOf(x.X.Type()); st != nil && name == "RWMutex" && st.Field(x.Field).Embedded() {
+			has := false
+			for k := 0; k < st.NumFields(); k++ {
+				if st.Field(k).Name() == "Mutex" {
+					has = true
+				}
+			}
+			if !has {
+				name = "Mutex"
+			}
+		}
+		return NamedTypeRel(x.X.Type()) + "." + name
 	case *ssa.Global:
 		return "global:" + GlobalName(x)
 	case *ssa.UnOp:
@@ -414,6 +428,24 @@ func samePlace(a, b ssa.Value) bool {
 	fb, ok2 := b.(*ssa.FieldAddr)
 	if ok1 && ok2 {
 		return fa.Field == fb.Field && fa.X == fb.X
+	}
+	return false
+}
+
+// readOnlyAccess: the instruction only reads the guarded object (address
+// computation, load, map lookup, iteration, len): a shared (read) hold of the
+// guard excludes every writer, which is all a reader needs. Calls on a loaded
+// pointer, stores, map updates and deletes need the exclusive hold.
+func readOnlyAccess(i ssa.Instruction) bool {
+	switch x := i.(type) {
+	case *ssa.FieldAddr, *ssa.Lookup, *ssa.Range, *ssa.Next:
+		return true
+	case *ssa.UnOp:
+		return x.Op == token.MUL
+	case *ssa.Call:
+		if b, ok := x.Call.Value.(*ssa.Builtin); ok && b.Name() == "len" {
+			return true
+		}
 	}
 	return false
 }
